@@ -1,0 +1,19 @@
+// Copyright 2022 The go-python Authors.  All rights reserved.
+// Use of this source code is governed by a BSD-style
+// license that can be found in the LICENSE file.
+
+//go:build verif
+
+package stdlib
+
+// VerifYield, when set, is called before every access to the shared lifecycle
+// state of a context (pushBusy, popBusy, Close).  The argument names the access
+// that follows.  Verification builds (-tags verif) install a controlling
+// scheduler here; it is never set otherwise.
+var VerifYield func(point string)
+
+func verifYield(point string) {
+	if f := VerifYield; f != nil {
+		f(point)
+	}
+}
